@@ -117,6 +117,21 @@ example :
       ∧ s.tasks.map (·.pc) = [.done, .holding 0, .failed .closedErr, .failed .cancelled] := by
   decide +kernel
 
+/-- **one key per endpoint.** Two URLs get the same connection key exactly when they name the same endpoint (host,
+effective port, is_ssl); so `limit_per_host`, the waiter queues and the idle pool — all indexed by the key — are per
+endpoint, not per spelling. -/
+theorem endpointKey_eq_iff (a b : UrlParts) :
+    endpointKey a = endpointKey b ↔ a.host = b.host ∧ effPort a = effPort b ∧ a.ssl = b.ssl := by
+  unfold endpointKey; constructor
+  · intro h; injection h with h1 h2; injection h2 with h2 h3; exact ⟨h1, h2, h3⟩
+  · rintro ⟨h1, h2, h3⟩; rw [h1, h2, h3]
+
+/-- spelling the scheme's default port out does not change the key (`http://h/` vs `http://h:80/`,
+`https://h/` vs `https://h:443/`), any other explicit port does -/
+theorem endpointKey_default_port (h : List Nat) (ssl : Bool) (p : Nat) :
+    (endpointKey ⟨h, none, ssl⟩ = endpointKey ⟨h, some p, ssl⟩) ↔ p = defaultPort ssl := by
+  simp [endpointKey, effPort]; exact eq_comm
+
 /-- **conservation.** In every reachable state every connection the connector ever created is closed, or idle
 in the pool, or counted in `_acquired`, or still in `connect()`'s hands inside an on_connection_create_end callback:
 no open connection ever drops out of the connector's bookkeeping (so `close()` reaches every one of them —
